@@ -9,7 +9,7 @@ from ..chain import Chain, bank_of
 from .common import *
 from .fm import *
 
-HINT = {'amount': 10 ** 6, 'other_amount': 5 * 10 ** 5, 'duration': DAY * 30, 'now_s': 10 ** 6, 'expiring_at': 10 ** 6 - 5, 'epoch': 20,
+HINT = {'amount': 10 ** 6, 'other_amount': 5 * 10 ** 5, 'duration': DAY * 30, 'now_s': 20 * 86400 + 5, 'expiring_at': 20 * 86400, 'epoch': 20,
         'fm_lp_balance': 10 ** 7, 'close_amount': 10 ** 5, 'add_amount': 10 ** 5, 'total_w': 10 ** 8, 'user_w': 10 ** 7, 'sender_lp': 10 ** 6}
 
 
@@ -17,7 +17,7 @@ def base_world(I, now_s=None, epoch=None):
     fm_config(I)
     now = I.sym('now_s', hi=U64 // NS) if now_s is None else now_s
     ep = I.sym('epoch', lo=1, hi=10 ** 6) if epoch is None else epoch
-    set_epoch(I, ep, now_nanos=simp(now * NS))
+    set_epoch(I, ep, now_s=now)
     I.world.store(FM)['position_id_counter'] = 7
     b = bank_of(I)
     bal = I.sym('fm_lp_balance', hi=U128)
